@@ -178,6 +178,34 @@ def witnesses(ctx):
             ctx.fail(key, f"accepted script does not compile: {res.compile_error[:300]}", {"script": WITNESS_HEAD + s})
 
 
+# sound forms that must keep compiling (each was the target of a seeded change)
+MUST_COMPILE = {
+    "helper-rebinding-parameter-two-call-types": "def scale(x):\n    x = x * 0.5\n    return x\na = scale(2.5)\nb = scale(200)\nmon.write(a)\nmon.write(b)\n",
+    "helper-rebinding-parameter-int-then-bool": "def scale(x):\n    x = x * 0.5\n    return x\na = scale(200)\nb = scale(True)\nmon.write(a + b)\n",
+    "helper-called-twice-same-types": "def add3(u):\n    return u + 3\nmon.write(add3(1))\nmon.write(add3(2))\nk = add3(add3(4))\nmon.write(k)\n",
+    "hoisted-then-reassigned": "c = 1\nif c > 0:\n    level = 3\nlevel = 5\nfor i in range(2):\n    total = i\ntotal = 9\nmon.write(level + total)\n",
+    "two-lcd-kinds": "from Reduino.Displays import LCD\nl1 = LCD(rs=12, en=11, d4=5, d5=4, d6=3, d7=2)\nl2 = LCD(i2c_addr=0x27)\nl1.line(0, \"a\")\nl2.line(0, \"b\")\n",
+    "lcd-with-rw-pin": "from Reduino.Displays import LCD\nl1 = LCD(rs=12, en=11, d4=5, d5=4, d6=3, d7=2, rw=10)\nl1.line(0, \"a\")\n",
+    "servo-only-in-loop": "from Reduino.Actuators import Servo\nwhile True:\n    s = Servo(9)\n    s.write(10)\n",
+}
+
+
+def must_compile(ctx):
+    items = list(MUST_COMPILE.items())
+    outs = [cxx.transpile(WITNESS_HEAD + s) for _, s in items]
+    jobs = [(cpp, 1, "") for cpp, e in outs if cpp is not None]
+    it = iter(cxx.run_many(ctx, jobs))
+    for (name, s), (cpp, e) in zip(items, outs):
+        ctx.case(WITNESS_HEAD + s, nontrivial=True)
+        if cpp is None:
+            ctx.count("must-compile:rejected:" + name)
+            continue
+        res = next(it)
+        shape(ctx, WITNESS_HEAD + s, cpp)
+        if res.compile_error:
+            ctx.fail(key_of(res.compile_error), f"accepted script ({name}) does not compile: {res.compile_error[:400]}", {"script": WITNESS_HEAD + s, "name": name})
+
+
 def compile_all(ctx):
     """the compiler as oracle over the documented style"""
     rng = ctx.rng
@@ -214,6 +242,7 @@ def run(ctx: Ctx) -> int:
     strings(ctx)
     scoping(ctx)
     witnesses(ctx)
+    must_compile(ctx)
     compile_all(ctx)
     ctx.cov["rule"] = ("(1) random strings over printable ASCII, heavy on quote/backslash, plus non-ASCII samples: model literal vs parser function, and bytes printed by the compiled "
                        "firmware at three literal sites; (2) core-fragment scripts incl. unbound and out-of-scope reads: WF model vs g++ -fsyntax-only; (3) feature pool + large "
